@@ -24,6 +24,8 @@ def geometries(tier, rng):
     troughs += [(v, c) for v in vrs for c in tcs]
     ps = [{"x": "geom", "rows": r, "cols": c, "vrows": 0} for r, c in sorted(set(plates))]
     ps += [{"x": "geom", "rows": 1, "cols": c, "vrows": v} for v, c in sorted(set(troughs))]
+    # troughs built with Labware(..., virtual_rows=v): the same numbering rules apply
+    ps += [{"x": "geom", "rows": 1, "cols": c, "vrows": v, "via": "labware"} for v, c in sorted(set(troughs))[:: (3 if tier == "quick" else 1)]]
     return ps
 
 
